@@ -248,7 +248,7 @@ theorem addProxy_clusters (s : Store) (a n0 n1 : String) (h : Option String) (i 
 /-- the proxy list after `add_proxy` (`MissingIndex` = ordered mode without an index) -/
 theorem addProxy_proxies (s : Store) (a n0 n1 : String) (h : Option String) (i : Option Nat) :
     (addProxy s a n0 n1 h i).1.proxies =
-      if colonCount a != 1 then s.proxies
+      if (colonCount a != 1 || n0 == n1) then s.proxies
       else match proxyIndex s i with
       | none => s.proxies
       | some idx =>
